@@ -19,6 +19,7 @@ ID = "C08"
 TRUSTED = ["harness/translate_kernel.py: fail-closed ast translator of _find_prob / _are_you_my_child / find_children / "
            "is_parent_around / _recursive_restore_prob_order / initalize_base_structures (other methods of the class they call are inlined) into gen/Kernel_gen.v (accepted subset and "
            "conventions in its header; out-of-range subscripts = the parameters undef_prob/undef_node), and the runtime KernelRt.v it targets",
+           __import__("queue_tie").TRUSTED,
            "CPython heapq contract", "str(float) / configparser.getfloat round trip is the identity (exercised on every saved probability)",
            "the saved probability is that of the popped, un-guessed pre-terminal (session loop, see C12)"]
 ASSUMES = ["ruleset well-formed (wf)", "min_probability = 0.0 (PcfgQueue never changes it)"]
@@ -272,6 +273,8 @@ def run(ctx):
             corr.append(("resume-run:" + name, True, ""))
     import kernel_tie
     corr.append(kernel_tie.obligation())
+    import queue_tie
+    corr.append(queue_tie.obligation())
     rule = ("random tie-rich rulesets (as C01, <= %d pre-terminals); for EVERY cut k the state a real PcfgQueue saves after "
             "its (k+1)-th pop is restored by a new PcfgQueue and run to exhaustion; oracle against the uninterrupted run for "
             "every k; plus two-cycle histories and the uuid refusal through the CLI; non-trivial = the saved probability is "
